@@ -428,6 +428,21 @@ func ruleErrL1Scoped(c *Ctx, only func(*Func) bool) {
 				if !ev.vars[v] || rhs == nil || isNilIdent(info, rhs) {
 					continue
 				}
+				// an error made on the spot (errors.New, fmt.Errorf over no other
+				// error) reports no failure of a callee: overwriting it loses nothing
+				if call, isCall := ast.Unparen(rhs).(*ast.CallExpr); isCall {
+					if nm := p.CalleeName(f, call); nm == "errors.New" || nm == "fmt.Errorf" {
+						wraps := false
+						for _, a := range call.Args {
+							if isErrorType(info.TypeOf(a)) {
+								wraps = true
+							}
+						}
+						if !wraps {
+							continue
+						}
+					}
+				}
 				cs := v.Name() + " = " + trimExpr(rhs)
 				if ev.skipped[v] {
 					c.R.Except("R-ERR/L1", p.Pos(n.Ast), f.Name, cs, "variable is captured by a closure that is not a deferred reader; not tracked")
